@@ -344,7 +344,9 @@ def twin(tier, seed):
 
 
 def replay(unit, name, model):
-    return {'reproduced': False, 'what': 'no native replay for proof counterexamples of this unit'}
+    """native replay of a solver model on the real classes (props/replay_misc.py)"""
+    from props import replay_misc
+    return replay_misc.replay(unit, name, model)
 
 
 def replay_file(doc):
